@@ -8,7 +8,8 @@
 //   * otherwise getSimulate is called exactly once, with icase = ivar + nvar*ipgs, the same ipgs / ivar / iact / iter,
 //     the conditional mean and standard deviation of THAT equation (VF_KIND 0: -sum_j C(e,j) y_j / C(e,e) over the
 //     current vector with the target entry zeroed, 1/sqrt(C(e,e)), e = iact + nact*ivar; VF_KIND 1: the values the
-//     stubs give for column iact + nact*ivar) and its result is stored in y[icase][iact];
+//     stubs give for column iact + nact*ivar; both compared with the reference inside the recorder, where the call
+//     is made) and its result is stored in y[icase][iact];
 //   * the entries of the other GS are not touched.
 // Overrides (exact real signatures):
 //   GibbsMulti::getSimulate                           -> records its arguments, returns an arbitrary real
@@ -68,10 +69,16 @@ double Db::getLocVariable(const ELoc& loctype, int iech, int item) const
 bool OptDbg::query(const EDbg&, bool) { return false; }
 
 // OVERRIDE: recorder
+static bool eq(double got, double want);
+#if VF_KIND == 0
+static double CM[NEQ * NEQ]; // copy of the inverse covariance matrix for the reference
+#else
+static double VK[NEQ], EK[NEQ];
+#endif
 // The record is filed under the (ivar, iact) the caller passes (concrete loop counters of the sweep), so that no
 // symbolic call count is needed; calls with ranks out of range or repeated are counted.
 static const VectorVectorDouble* y_expected;
-static double C_yk[NEQ], C_sk[NEQ];
+static int C_okmean[NEQ], C_oksd[NEQ]; // reference conditional mean / st.dev. compared where the call is made
 static int C_cnt[NEQ], C_yok[NEQ], C_icase[NEQ], C_ipgs[NEQ], C_iter[NEQ];
 static double C_snap[NEQ][NITEM * VF_NACT]; // the vector as the simulation sees it
 static double RV[NEQ];
@@ -89,12 +96,23 @@ double GibbsMulti::getSimulate(VectorVectorDouble& y, double yk, double sk, int 
   const VectorVectorDouble& cy = y;
   for (int c = 0; c < NITEM; c++)
     for (int j = 0; j < VF_NACT; j++) C_snap[k][c * VF_NACT + j] = cy[c][j];
-  C_yk[k] = yk; C_sk[k] = sk; C_icase[k] = icase; C_ipgs[k] = ipgs; C_iter[k] = iter;
+  C_icase[k] = icase; C_ipgs[k] = ipgs; C_iter[k] = iter;
+  // reference: equation e = iact + nact*ivar of the system of this GS
+  const int e = k;
+#if VF_KIND == 0
+  double est = 0.;
+  for (int jv = 0; jv < VF_NVAR; jv++)
+    for (int ja = 0; ja < VF_NACT; ja++) est -= cy[jv + VF_NVAR * ipgs][ja] * CM[e * NEQ + ja + VF_NACT * jv];
+  C_okmean[k] = eq(yk, est * (1. / CM[e * NEQ + e])) ? 1 : 0;
+  C_oksd[k] = (sk >= 0. && eq(sk * sk * CM[e * NEQ + e], 1.)) ? 1 : 0;
+#else
+  C_okmean[k] = eq(yk, EK[e] * VK[e]) ? 1 : 0;
+  C_oksd[k] = (sk >= 0. && eq(sk * sk, VK[e])) ? 1 : 0;
+#endif
   return RV[k];
 }
 
 #if VF_KIND == 1
-static double VK[NEQ], EK[NEQ];
 static int n_badcol;
 int GibbsMMulti::_getVariableNumber() const { return VF_NVAR; }
 void GibbsMMulti::_getWeights(int) const {}
@@ -134,7 +152,7 @@ static void run(const int ipgs)
     for (int c = 0; c < NITEM; c++)
     {
       double l = vf_finite_double(), w = absd(vf_finite_double());
-      vf_assume(l > -1.e29 && l < 1.e29 && w < 1.e29);
+      vf_assume(l >= -1.e29 && l <= 1.e29 && w <= 1.e29);
       la[s][c] = vf_nondet_bool();
       ua[s][c] = vf_nondet_bool();
       LB[s][c] = la[s][c] ? TEST : l;
@@ -148,19 +166,20 @@ static void run(const int ipgs)
   for (int c = 0; c < NITEM; c++)
     for (int i = 0; i < VF_NACT; i++) y0[c][i] = vf_finite_double();
 #if VF_KIND == 0
-  double cm[NEQ * NEQ];
-  for (int i = 0; i < NEQ * NEQ; i++) cm[i] = vf_finite_double();
+  for (int i = 0; i < NEQ * NEQ; i++) CM[i] = vf_finite_double();
   for (int i = 0; i < NEQ; i++)
   {
-    cm[i * NEQ + i] = absd(cm[i * NEQ + i]); // inverse of a positive definite matrix: positive diagonal
-    vf_assume(cm[i * NEQ + i] != 0.);
+    double q = CM[i * NEQ + i];
+    vf_assume(q != 0.);
+    CM[i * NEQ + i] = q * q; // inverse of a positive definite matrix: positive diagonal (any positive real is a square)
   }
 #else
   for (int i = 0; i < NEQ; i++)
   {
-    VK[i] = absd(vf_finite_double());
+    double q = vf_finite_double();
     EK[i] = vf_finite_double();
-    vf_assume(VK[i] != 0.);
+    vf_assume(q != 0.);
+    VK[i] = q * q; // positive variance
   }
   n_badcol = 0;
 #endif
@@ -181,7 +200,7 @@ static void run(const int ipgs)
   g->_model = nullptr;
 #if VF_KIND == 0
   new (&g->_covmat) VectorDouble(NEQ * NEQ);
-  for (int i = 0; i < NEQ * NEQ; i++) g->_covmat[i] = cm[i];
+  for (int i = 0; i < NEQ * NEQ; i++) g->_covmat[i] = CM[i];
 #endif
   VectorVectorDouble y(NITEM);
   for (int c = 0; c < NITEM; c++)
@@ -232,14 +251,11 @@ static void run(const int ipgs)
         for (int j = 0; j < VF_NACT; j++) same = same && C_snap[e][c2 * VF_NACT + j] == yy[c2][j];
       vf_assert_id(same, "vector seen by the simulation = initial vector with the earlier results stored and the target entry zeroed");
 #if VF_KIND == 0
-      double est = 0.;
-      for (int jv = 0; jv < VF_NVAR; jv++)
-        for (int ja = 0; ja < VF_NACT; ja++) est -= C_snap[e][(jv + VF_NVAR * ipgs) * VF_NACT + ja] * cm[e * NEQ + ja + VF_NACT * jv];
-      vf_assert_id(eq(C_yk[e], est * (1. / cm[e * NEQ + e])), "conditional mean of the equation of this (variable, sample): -sum_j C(e,j) y_j / C(e,e)");
-      vf_assert_id(C_sk[e] >= 0. && eq(C_sk[e] * C_sk[e] * cm[e * NEQ + e], 1.), "conditional standard deviation 1/sqrt(C(e,e))");
+      vf_assert_id(C_okmean[e] == 1, "conditional mean of the equation of this (variable, sample): -sum_j C(e,j) y_j / C(e,e)");
+      vf_assert_id(C_oksd[e] == 1, "conditional standard deviation 1/sqrt(C(e,e))");
 #else
-      vf_assert_id(eq(C_yk[e], EK[e] * VK[e]), "conditional mean of the column of this (variable, sample)");
-      vf_assert_id(C_sk[e] >= 0. && eq(C_sk[e] * C_sk[e], VK[e]), "conditional standard deviation of the column of this (variable, sample)");
+      vf_assert_id(C_okmean[e] == 1, "conditional mean of the column of this (variable, sample)");
+      vf_assert_id(C_oksd[e] == 1, "conditional standard deviation of the column of this (variable, sample)");
 #endif
       vf_assert_id(v == RV[e], "simulated value stored at y[icase][iact]");
       yy[item][i] = RV[e];
